@@ -822,9 +822,16 @@ class XlsxRowWriter(AbstractRowWriter):
             if isinstance(item, str):
                 # Write strings as explicit strings to prevent strings starting with '=' from being converted to
                 # formulas.
-                self.worksheet.write_string(row_index, column_index, item)
+                write_result = self.worksheet.write_string(row_index, column_index, item)
             else:
-                self.worksheet.write(row_index, column_index, item)
+                write_result = self.worksheet.write(row_index, column_index, item)
+            if write_result not in (None, 0):
+                # The worksheet ignores cells beyond the possible rows and columns and truncates long strings.
+                raise errors.DataFormatError(
+                    "cannot write item to Excel worksheet: exceeds maximum number of rows, columns "
+                    "or characters in a cell (error code %s)" % write_result,
+                    self.location,
+                )
             self.location.advance_cell()
         self.location.advance_line()
 
